@@ -189,4 +189,38 @@ def build(tier):
                     f'    let _ = {mod}::Pinned::from_str(s);\n    kani::cover!(true);\n')
             lib += harness_attrs(h) + f'pub fn {name}() {{\n{body}}}\n'
             harnesses.append(h)
+    # deeper shapes: the code behind the 40-character commit hash / 46-character cid checks is only reached
+    # with a well-formed tail, so the tail is concrete and the component in front of it symbolic
+    if 'git' in [m for m in MODS if f'pub mod {m} ' in lib]:
+        lib += 'pub fn any_hash_verdict(_h: &str) -> Result<()> { if kani::any::<bool>() { Ok(()) } else { Err(AnyErr) } }\n'
+        stubs = COMMON_STUBS + [('alloc::fmt::format', 'stub_format_git'), ('git::validate_git_commit_hash', 'any_hash_verdict')]
+        for k in ([3, 6, 7] if tier == 'quick' else [0, 1, 2, 3, 4, 5, 6, 7, 8]):
+            name = f'git_ref{k}'
+            pre, post = 'git+u?', '#a'
+            tot = len(pre) + k + len(post)
+            h = Harness(name, unwind=tot + 3, stubs=stubs, timeout=1200 if tier == 'quick' else 3600,
+                        note=f'git::Pinned::from_str on "git+u?" + every ASCII reference of length {k} without \'#\' + "#a"; validate_git_commit_hash stubbed to an arbitrary verdict so that the reference parsing behind it is reached',
+                        meta={'parser': 'git', 'shape': 'ref', 'len': k, 'pre': pre, 'post': post, 'e2e_pre': 'git+http://a?', 'e2e_post': '#' + 'a' * 40})
+            body = (f'    let mut buf = [0u8; {tot}];\n    let n = sym_str::<{k}>(b"{pre}", &mut buf);\n'
+                    f'    let mut j = {len(pre)};\n    while j < n {{ kani::assume(buf[j] != b\'#\'); j += 1; }}\n'
+                    f'    let post = b"{post}";\n    let mut i = 0;\n    while i < post.len() {{ buf[n + i] = post[i]; i += 1; }}\n'
+                    f'    let s = unsafe {{ std::str::from_utf8_unchecked(&buf[..]) }};\n'
+                    f'    let _ = git::Pinned::from_str(s);\n    kani::cover!(true);\n')
+            lib += harness_attrs(h) + f'pub fn {name}() {{\n{body}}}\n'
+            harnesses.append(h)
+    if 'reg' in [m for m in MODS if f'pub mod {m} ' in lib]:
+        lib += 'pub fn any_cid_verdict(_c: &str) -> bool { kani::any::<bool>() }\n'
+        stubs = COMMON_STUBS + [('alloc::fmt::format', 'stub_format_reg'), ('reg::validate_cid', 'any_cid_verdict')]
+        for k in ([2] if tier == 'quick' else [0, 1, 2, 3]):
+            name = f'reg_ns{k}'
+            pre = 'registry+n?1#Q'
+            tot = len(pre) + k
+            h = Harness(name, unwind=tot + 3, stubs=stubs, timeout=1800 if tier == 'quick' else 3600,
+                        note=f'reg::Pinned::from_str on "registry+n?1#Q" followed by every ASCII string of length {k} (cid / namespace part); validate_cid stubbed to an arbitrary verdict',
+                        meta={'parser': 'reg', 'shape': 'ref', 'len': k, 'pre': pre, 'post': '', 'e2e_pre': 'registry+n?1.0.0#Qm' + 'a' * 43, 'e2e_post': ''})
+            body = (f'    let mut buf = [0u8; {tot}];\n    let _n = sym_str::<{k}>(b"{pre}", &mut buf);\n'
+                    f'    let s = unsafe {{ std::str::from_utf8_unchecked(&buf[..]) }};\n'
+                    f'    let _ = reg::Pinned::from_str(s);\n    kani::cover!(true);\n')
+            lib += harness_attrs(h) + f'pub fn {name}() {{\n{body}}}\n'
+            harnesses.append(h)
     return Crate('C21', 'c21_lock', lib, harnesses, features_nightly=('pattern',)), unlocated, sliced
